@@ -42,7 +42,7 @@ def worker_main(prop, seed, tier, first, stride, count, out):
     faulthandler.enable()
     with open(out, "w") as f:
         for idx in range(first, count, stride):
-            faulthandler.dump_traceback_later(600, exit=True)
+            faulthandler.dump_traceback_later(900, exit=True)
             try:
                 rec = mod.run_one(seed, tier, idx)
             except Exception as e:  # noqa: BLE001 an exception of the machinery itself in one run: recorded, never a violation
